@@ -130,6 +130,34 @@ theorem appender_emitTypeSet (ts : TypeSet) : Appender (emitTypeSet ts) := by
     · exact appender_emitU8 _
     · exact appender_emitU8 _
 
+theorem appender_emitSvcVal (v : SvcVal) : Appender (emitSvcVal v) := by
+  have eo : ∀ (c : Prop) [Decidable c] (f : Enc → ERes Unit), Appender f →
+      Appender (fun e => if c then .err .other e else f e) := fun c _ f hf => appender_errOther f c hf
+  cases v with
+  | mandatory keys =>
+    refine eo _ _ (seqAll_appender _ ?_)
+    intro f hf; simp only [List.mem_map] at hf; obtain ⟨k, _, rfl⟩ := hf; exact appender_emitU16 k
+  | alpn ids =>
+    refine eo _ _ (seqAll_appender _ ?_)
+    intro f hf; simp only [List.mem_map] at hf; obtain ⟨k, _, rfl⟩ := hf; exact appender_emitCharacterData k
+  | noDefaultAlpn => exact appender_nothing
+  | port p => exact appender_emitU16 p
+  | ipv4hint addrs =>
+    refine seqAll_appender _ ?_
+    intro f hf; simp only [List.mem_map] at hf; obtain ⟨k, _, rfl⟩ := hf; exact appender_emitSlice k
+  | ech d => exact appender_emitSlice d
+  | ipv6hint addrs =>
+    refine seqAll_appender _ ?_
+    intro f hf; simp only [List.mem_map] at hf; obtain ⟨k, _, rfl⟩ := hf; exact appender_emitPairs k
+  | unknown d => exact appender_emitSlice d
+
+theorem appender_emitSvcParams : ∀ (ps : List (Nat × SvcVal)) (last : Option Nat), Appender (emitSvcParams last ps)
+  | [], last => by unfold emitSvcParams; exact appender_nothing
+  | (k, v) :: rest, last => by
+    unfold emitSvcParams
+    exact appender_errOther _ _ (appender_seq (appender_emitU16 k)
+      (appender_seq (appender_lenPrefixedTry (appender_emitSvcVal v)) (appender_emitSvcParams rest (some k))))
+
 /-- every modelled RDATA emitter only ever appends -/
 theorem appender_emitRData (t : Nat) (d : RData) (hm : d.emitModelled = true) : Appender (emitRData t d) := by
   cases d <;> first | (simp [RData.emitModelled] at hm; done) | skip
@@ -292,6 +320,14 @@ theorem appender_emitRData (t : Nat) (d : RData) (hm : d.emitModelled = true) : 
     · exact appender_emitU32 _
     · exact appender_emitU16 _
     · exact appender_emitTypeSet _
+  case svcb prio target ps =>
+    refine appender_withRdataBehavior (seqAll_appender _ ?_) _
+    intro f hf
+    simp only [List.mem_cons, List.not_mem_nil, or_false] at hf
+    rcases hf with rfl | rfl | rfl
+    · exact appender_emitU16 _
+    · exact appender_emitName _
+    · exact appender_emitSvcParams _ _
   case caa cr rs tag v =>
     refine appender_withRdataBehavior (seqAll_appender _ ?_) _
     intro f hf
